@@ -4,6 +4,18 @@ VERIF = os.path.dirname(os.path.dirname(os.path.abspath(__file__)))
 ALL = [f"C{n:02d}" for n in range(1, 21)]
 
 CLAIMED = {
+ "C02": dict(
+   text="Theorems (Coq, Coquelicot is_derive): for the Autodiff.v model of symbolic differentiation (5 binary rules, 19 unary rules, 11 registered vector/matrix rules, 6 simplifiers), at every regular point the derivative tree evaluates to the true partial derivative of the denoted function; for absent variables the result is literally the constant 0; derivative trees stay in the fragment (closed for re-differentiation); the explicit-stack traversal equals the recursive one. Tie: the derivative TREE returned by gradient() on the default and the forced explicit-stack path must equal the model's tree exactly, and the value of the returned tree must lie in the interval enclosure of the model tree's real denotation, on generated API programs, every run.",
+   note="Trusted: Coq kernel; Reals/Coquelicot axioms as printed; Interval library for the numeric channel; model Autodiff.v. log2/log10 are excluded from the real-number theorem (their derivative embeds the double nearest ln 2 / ln 10) but their trees are compared exactly. dot_same_ok: equal object ids denote the same vector object (serialiser numbering).",
+   technique="Coq proof (chain-rule lemmas per operator over Coquelicot's is_derive, structural induction) + exact tree correspondence + interval-enclosure check", ref="6/C02"),
+ "C06": dict(
+   text="Theorems (Coq): for EVERY answer SciPy could return (and every retry answer), the wrapper model reports OPTIMAL only if the reported point passed the feasibility scan over all declared bounds and all constraint functions within the scaled tolerance; linprog: OPTIMAL iff result.success; at most one retry; every method string is routed to exactly one wrapper. The status chains, accepted-exit condition, tolerances and method sets are regenerated from the source on every run and the theorems re-proved over them. Tie: exhaustive scripted-stub product at the SciPy seams (1980 combinations) must match the model's predicted status, objective, values, call count and argument flags.",
+   note="Trusted: Coq kernel (no axioms); translator for the status chains; SciPy as an arbitrary oracle (a NaN point with success=True is outside the rational model); hand-written scan model validated exhaustively against the stubbed wrapper; real-solver search as failing-input search only.",
+   technique="Coq proof by case analysis over the generated decision lists (translator output re-proved each run) + exhaustive stub correspondence", ref="6/C06"),
+ "C13": dict(
+   text="Theorems (Coq, closed under the global context): for the ProblemSM.v state machine, after ANY sequence of objective/sense/constraint/bound edits, reads and solves, everything cached was derived from the current model (cache_inv), every solve hands the solver exactly what a freshly constructed problem would, and bounds are read at solve time. Tie: operation sequences (all of length <= 2, 1100 of length 3, sampled up to 8; thorough: all up to 4) against the real Problem with stubbed seams: per-step cache flags and seam arguments must equal the model's trace.",
+   note="Trusted: Coq kernel (no axioms); model ProblemSM.v (a compiled callable is modelled by what it was compiled from); stubs at the two SciPy seams; real solvers only for the failing-input search.",
+   technique="Coq proof (invariant by induction over operation sequences, refinement to a fresh problem) + exhaustive/sampled history correspondence", ref="6/C13"),
  "C05": dict(
    text="Theorems (Coq): for the Linear.v model of LP extraction, every linear expression equals its extracted coefficient row applied to the point plus its extracted constant in any duplicate-free variable order; extract_lp's cost vector + constant reproduce the objective, each row/right-hand side reproduces the constraint with its sense (>= negated, == kept, constraint order kept), columns are aligned with the names, the O(1) shortcuts equal the general walker under the monotone-view guarantee, and the reported objective value (both orientations, constant included) equals the objective at the solver's point. Tie: all LPData fields and the public extraction functions must equal the model exactly on generated linear problems, every run.",
    note="Trusted: Coq kernel; Reals axioms as printed; model Linear.v; exactness of float arithmetic on the generated small dyadic coefficients; nodiv0 guard (division by literal zero raises in Python); monotone views (API guarantee, hypothesis `aligned` evaluated per case).",
